@@ -62,4 +62,19 @@ class C08(Prop):
         return "\n".join(out)
 
 
+    # ---- implementation side -------------------------------------------------
+    def prepare(self, ctx):
+        self.exe = E.compile_harness("c08", [os.path.join(E.VERIF, "harness/c08/c08.c")])
+        self.conf = E.make_mudlib(ctx.rundir, master="/c08/master.c", extra_conf="ObjectHashSize %d\n" % OT_SIZE)
+        d = os.path.join(ctx.rundir, "mudlib", "c08")
+        for k in range(NBP_LARGE):
+            with open(os.path.join(d, "b%d.c" % k), "w") as f:
+                f.write('#include "/c08/obj.c"\n')
+        with open(os.path.join(d, "bad.c"), "w") as f:
+            f.write("void create () { this is not LPC\n")
+
+    def run_impl(self, ctx, cases):
+        return E.run_harness(self.exe, self.conf, cases, ctx.rundir)
+
+
 PROP = C08()
